@@ -8,7 +8,7 @@
    visit_map / visit_seq of structs (unknown keys ignored,
    duplicate field = error, missing field = error unless Option, FIRST failure in document order
    wins: this matters because a nested rebuild can abort), ndarray's own (de)serialiser
-   ({"v":1,"dim":[..],"data":[..]}, unknown key = error, duplicates silently overwrite, size check),
+   ({"v":1,"dim":[..],"data":[..]}, unknown key = error, duplicates silently overwrite, a `dim` of the wrong rank is an error as soon as it is read, size check),
    IndexSet/HashSet (a sequence, duplicates collapse), IndexMap<i64,_> (a map with integer keys,
    a repeated key overwrites in place), chrono Weekday names.
 
@@ -155,31 +155,37 @@ Definition dec_unit_enum (names : list name) (j : json) : outcome nat :=
 (* ------------------------------------------------------------------ ndarray (array_serde.rs) *)
 Definition k_v := s2n "v". Definition k_dim := s2n "dim". Definition k_data := s2n "data".
 (* visit_map: unknown key = error; a repeated key overwrites; version checked when met *)
-Fixpoint nd_scan {A} (d : json -> outcome A) (kvs : list (key * json))
+(* `rank`: the array type fixes the number of dimensions (Ix1 / Ix2 deserialise as fixed-size tuples): a `dim`
+   entry of another length is an error AS SOON AS IT IS READ (so also when a later duplicate would overwrite it) *)
+Fixpoint nd_scan {A} (rank : nat) (d : json -> outcome A) (kvs : list (key * json))
                  (v : bool) (dim : option (list Z)) (data : option (list A))
   : outcome (list Z * list A) :=
   match kvs with
   | [] => if negb v then Err
           else match data, dim with Some da, Some di => Ok (di, da) | _, _ => Err end
   | (KStr k, x) :: r =>
-      if name_eqb k k_v then do ver <- dec_u8 x; if ver =? 1 then nd_scan d r true dim data else Err
-      else if name_eqb k k_data then do da <- dec_seq d x; nd_scan d r v dim (Some da)
-      else if name_eqb k k_dim then do di <- dec_seq dec_usize x; nd_scan d r v (Some di) data
+      if name_eqb k k_v then do ver <- dec_u8 x; if ver =? 1 then nd_scan rank d r true dim data else Err
+      else if name_eqb k k_data then do da <- dec_seq d x; nd_scan rank d r v dim (Some da)
+      else if name_eqb k k_dim then
+        do di <- dec_seq dec_usize x;
+        if Nat.eqb (List.length di) rank then nd_scan rank d r v (Some di) data else Err
       else Err
   | (KInt _, _) :: _ => Err
   end.
-Definition nd_raw {A} (d : json -> outcome A) (j : json) : outcome (list Z * list A) :=
+Definition nd_raw {A} (rank : nat) (d : json -> outcome A) (j : json) : outcome (list Z * list A) :=
   match j with
-  | JObj kvs => nd_scan d kvs false None None
+  | JObj kvs => nd_scan rank d kvs false None None
   | JArr [jv; jdim; jdata] =>
       do ver <- dec_u8 jv; if negb (ver =? 1) then Err else
-      do di <- dec_seq dec_usize jdim; do da <- dec_seq d jdata; Ok (di, da)
+      do di <- dec_seq dec_usize jdim;
+      if negb (Nat.eqb (List.length di) rank) then Err else
+      do da <- dec_seq d jdata; Ok (di, da)
   | JArr (jv :: _) => do ver <- dec_u8 jv; Err
   | _ => Err
   end.
 (* Array1: dim = [n] with n = number of elements *)
 Definition dec_arr1 {A} (d : json -> outcome A) (j : json) : outcome (list A) :=
-  do r <- nd_raw d j;
+  do r <- nd_raw 1 d j;
   match fst r with
   | [n] => if n =? Z.of_nat (List.length (snd r)) then Ok (snd r) else Err
   | _ => Err
@@ -189,7 +195,7 @@ Definition enc_arr1 {A} (e : A -> json) (l : list A) : json :=
 (* Array2, row major.  rows * cols = number of elements (from_shape_vec) *)
 Record arr2 := mkArr2 { a_rows : Z; a_cols : Z; a_data : list T }.
 Definition dec_arr2 (j : json) : outcome arr2 :=
-  do r <- nd_raw dec_f64 j;
+  do r <- nd_raw 2 dec_f64 j;
   match fst r with
   | [n; m] => if n * m =? Z.of_nat (List.length (snd r)) then Ok (mkArr2 n m (snd r)) else Err
   | _ => Err
